@@ -675,7 +675,8 @@ def _check_domain_event(ctx: Ctx, ev: dict, models: list, inst: list, stage: dic
     # chain atoms lie inside the domain: every chain predicate over this domain (named __chain_..__{min|max}_<dom>)
     # only carries values of the domain at its last position
     all_preds = set().union(*(m.keys() for m in models[:64])) if models else set()
-    chain_preds = sorted(p for p in all_preds if p[0].startswith("__chain_") and (p[0].endswith("__max_" + dom[0]) or p[0].endswith("__min_" + dom[0])))
+    stem = "__chain_" + "_".join(str(i) for i in ev["annotated"]) + f"_{ev['position']}"  # the chain of this value position
+    chain_preds = sorted(p for p in all_preds if p[0] in (stem + "__max_" + dom[0], stem + "__min_" + dom[0]))
     for m in models[:64]:
         for cp in chain_preds:
             dom_vals = {t[ev["position"]] for t in m.get(dom, set())}
